@@ -8,6 +8,7 @@ from __future__ import annotations
 import json
 import math
 import random
+import re
 from datetime import timedelta
 from pathlib import Path
 
@@ -395,42 +396,54 @@ def _worker(chunk, out_path):
 
 
 # ---------------------------------------------------------------------------
-def _is_deep(ln: str, pool: bool) -> bool:
-    """Histories worth keeping besides the uniform sample.
+_RESET_RE = re.compile(r'fail.*tick.*kind.*\[\\"ok\\"\].*\[\\"fail\\"\]\}\]"\s*$')
 
-    Single battery: only healthy data and four failed power commands over seven seconds (only those can reach
-    the back-off cap).  Pool: both batteries were sent data on both streams and a command failed (only those
-    can show a working and an uncertain battery together).
+
+def _deep_tag(ln: str, pool: bool) -> str | None:
+    """Histories worth keeping besides the uniform sample (a selection among TLC's histories, not an invention).
+
+    Single battery, healthy data only:
+      "cap"    four failed power commands over seven seconds (only those can reach the back-off cap);
+      "reset"  failure, time passes, a message, a success, and a failure as the last step (the only way to
+               see that a success arriving after the block expired resets the back-off).
+    Pool: "both"  both batteries were sent data on both streams and a command failed (only those can show
+               a working and an uncertain battery together).
     """
     if pool:
         needle = r'\"a\":\"%s\",\"b\":%d'
-        return "fail" in ln and all((needle % (a, b)) in ln for a in ("bat", "inv") for b in (1, 2))
-    # healthy messages only, at least four failed commands, at least seven seconds (1 + 2 + 4)
-    return ln.count("fail") >= 4 and ln.count("tick") >= 7 and ln.count("kind") == ln.count(r'kind\":\"ok')
+        return "both" if "fail" in ln and all((needle % (a, b)) in ln for a in ("bat", "inv") for b in (1, 2)) else None
+    if ln.count("kind") != ln.count(r'kind\":\"ok'):
+        return None
+    if ln.count("fail") >= 4 and ln.count("tick") >= 7:
+        return "cap"
+    if _RESET_RE.search(ln):
+        return "reset"
+    return None
 
 
 def _sample_emitted(path: Path, limit: int | None, seed: int, deep: int = 0, pool: bool = False) -> tuple[list, int]:
     """Read the histories TLC emitted; deterministically subsample by line index when there are many.
 
-    `deep`: additionally keep up to that many histories selected by _is_deep (a selection among TLC's
-    histories, not an invention).
+    `deep`: additionally keep up to that many histories of every _deep_tag class.
     """
     if not path.exists():
         return [], 0
     total = 0
-    deep_idx: list[int] = []
+    deep_idx: dict[str, list[int]] = {}
     with open(path) as f:
         for ln in f:
             if not ln.strip():
                 continue
-            if deep and _is_deep(ln, pool):
-                deep_idx.append(total)
+            tag = _deep_tag(ln, pool) if deep else None
+            if tag:
+                deep_idx.setdefault(tag, []).append(total)
             total += 1
     if not limit or total <= limit:
         return read_emitted(path), total
     rnd = random.Random(seed)
     keep = set(rnd.sample(range(total), limit))
-    keep |= set(rnd.sample(deep_idx, min(deep, len(deep_idx))))
+    for tag in sorted(deep_idx):
+        keep |= set(rnd.sample(deep_idx[tag], min(deep, len(deep_idx[tag]))))
     out = []
     with open(path) as f:
         i = -1
@@ -647,7 +660,8 @@ def run(prop: str, tier: str) -> int:
     _bind(rep, "sim_pool", sc["sim_pool"], "sim", sc["sim_pool_num"], pool=True, simulate=f"num={max(1, sc['sim_pool_num'] // 5)}")
     rep.exhaustive = False  # emitted histories are subsampled / simulated; the MC stage itself is exhaustive
     need = dict(reportedUsable=1, disqualifiedEdges=1, silenceEdges=1, notifications=1, blockedPoints=1,
-                unblockedAfterBlock=1, resets=1, fallbackUsed=1, uncertainWithheld=1, maxConsecutive=4, devEdge=1)
+                unblockedAfterBlock=1, resets=1, fallbackUsed=1, uncertainWithheld=1, maxConsecutive=4, devEdge=1,
+                successUnblockedThenFail=1, successAfterExpiryThenFail=1, successWhileBlockedThenFail=1)
     tot = rep.extra.get("antecedents_total", {})
     ndis = rep.extra.get("disagreements", {}).get("traces_not_explained_by_spec", 0)
     rep.extra.setdefault("disagreements", dict(traces_not_explained_by_spec=0, examples=[]))
